@@ -267,6 +267,8 @@ def run(ck, tier):
     _acc2.run2(ck, F, 'C12')
     from . import relations as _rel
     _rel.run(ck, F, 'C12')
+    from . import guards as _grd
+    _grd.run(ck, F, 'C12')
     from . import c12x
     c12x.run(ck, F)
     run_native(ck, F)
